@@ -1,3 +1,4 @@
+import networkx as nx
 import flowpaths.stdigraph as stdigraph
 import flowpaths.utils.dominators as dominators
 from queue import Queue
@@ -72,6 +73,13 @@ def find_idom(adj_dict, s, t) -> list:
 def maximal_safe_sequences_via_dominators(G : stdigraph.stDiGraph, X = set()) -> list :
 
     if X == None or len(X) == 0:
+        return []
+
+    # The dominator computations below assume that every node lies on some source-to-sink walk. If some node does not
+    # (e.g. a cycle that cannot reach the sink), we report no safe sequences, which is always correct.
+    reachable_from_source = nx.descendants(G, G.source)
+    reaching_sink = nx.ancestors(G, G.sink)
+    if any(v not in reachable_from_source or v not in reaching_sink for v in G.nodes() if v not in (G.source, G.sink)):
         return []
 
     s_idoms = dict()
